@@ -210,6 +210,12 @@ def step (j : Json) : Json :=
     match getStr? j "t" with
     | some t => Json.mkObj [("v", match boolWord t.toList with | some b => .bool b | none => .null)]
     | none => bad "text"
+  | some "branch" =>
+    match parserOfJson (getD j "parser"), getStr? j "key" with
+    | some P, some k => Json.mkObj [("v", .bool (isBranchKey P k.toList))]
+    | _, _ => bad "branch arguments"
+  | some "tables" =>
+    Json.mkObj [("branchKeyDotBoundary", .bool Jap.Gen.branchKeyDotBoundary), ("groupActionFirst", .bool Jap.Gen.groupActionFirst)]
   | some "render" =>
     match parserOfJson (getD j "parser"), settingsOfJson (getD j "settings"), (getStr? j "channel").bind channelOfString with
     | some P, some S, some c => Json.mkObj [("src", sourceToJson (render P c S))]
